@@ -17,7 +17,8 @@ RULE = ('histories of sets/gets/incrs/touches/pops with skewed read patterns ove
         'policy keys kept by the reference (store order, last store-or-read, read count), cull() returning exactly the '
         'number removed and leaving no expired item and volume <= limit or an empty cache, per shard for FanoutCache '
         'with limit/shards. evaluations = calls judged; distinct_nontrivial = distinct (policy, cull_limit, container, '
-        'evicting operation, evicted count) cells')
+        'evicting operation, evicted count) cells'
+        ' The limit must also still have been reached after the expired phase of the same call (size counter after the call plus evicted bytes, page slack); big items expiring at the limit are planted for that.')
 DISTINCT = ('evict_cells',)
 REQUIRED = ('non_ascii_text_values', 'calls_judged', 'evicting_writes_lrs', 'evicting_writes_lru', 'evicting_writes_lfu', 'writes_below_limit',
             'policy_none_histories', 'cull_limit_zero_histories', 'explicit_culls_evicting', 'fanout_histories',
